@@ -596,6 +596,124 @@ theorem decodeSequentialAttributes_shape (opts : DecOpts) (numPoints : Nat) (s s
     simp only [Prod.mk.injEq] at hd
     exact ⟨hd.2.1.symm, hd.2.2.symm⟩
 
+/-- every branch of `finishSeqAttribute` keeps the descriptor's unique id and installs the given
+    value count and point → value map -/
+theorem finishSeqAttribute_spec (opts : DecOpts) (d : SeqAttState) (nv : Nat)
+    (mp : Option (List Nat)) (t t' : DSt) (a : Attribute)
+    (ha : finishSeqAttribute opts d nv mp t = (some a, t')) :
+    (a.uniqueId, a.map, a.numValues) = (d.desc.uniqueId, mp, nv) := by
+  unfold finishSeqAttribute at ha
+  dsimp only at ha
+  split at ha
+  · obtain ⟨rfl, -⟩ := DecM.pure_some ha
+    rfl
+  · split at ha
+    · obtain ⟨rfl, -⟩ := DecM.pure_some ha
+      rfl
+    · generalize d.decoderType = dt at ha
+      generalize d.transform = tr at ha
+      match dt, tr with
+      | 1, _ =>
+        obtain ⟨rfl, -⟩ := DecM.pure_some ha
+        rfl
+      | 2, .quantization _ _ _ =>
+        obtain ⟨rfl, -⟩ := DecM.pure_some ha
+        rfl
+      | 2, .none => exact absurd ha (DecM.fail_ne_some _ _ _)
+      | 2, .octahedron _ => exact absurd ha (DecM.fail_ne_some _ _ _)
+      | 0, .octahedron _ =>
+        obtain ⟨rfl, -⟩ := DecM.pure_some ha
+        rfl
+      | 0, .none => exact absurd ha (DecM.fail_ne_some _ _ _)
+      | 0, .quantization _ _ _ => exact absurd ha (DecM.fail_ne_some _ _ _)
+      | n+3, .octahedron _ =>
+        obtain ⟨rfl, -⟩ := DecM.pure_some ha
+        rfl
+      | n+3, .none => exact absurd ha (DecM.fail_ne_some _ _ _)
+      | n+3, .quantization _ _ _ => exact absurd ha (DecM.fail_ne_some _ _ _)
+
+/-- the controller for bitstreams < 2.0: same shape as `decodeSequentialAttributes_shape` -/
+theorem decodeSequentialAttributesLegacy_shape (opts : DecOpts) (numPoints : Nat) (s s' : DSt)
+    (atts : List Attribute)
+    (h : decodeSequentialAttributesLegacy opts numPoints s = (some atts, s')) :
+    ∃ descs s1, decodeAttDescs s = (some descs, s1) ∧
+      atts.map (·.uniqueId) = descs.map (·.uniqueId) ∧
+      ∀ a ∈ atts, a.map = none ∧ a.numValues = numPoints := by
+  unfold decodeSequentialAttributesLegacy at h
+  obtain ⟨descs, s1, hd, h⟩ := DecM.bind_some h
+  obtain ⟨_, s2, -, h⟩ := DecM.bind_some h
+  obtain ⟨st1, s3, h1, h⟩ := DecM.bind_some h
+  obtain ⟨_, s4, -, h⟩ := DecM.bind_some h
+  obtain ⟨_, s5, -, h⟩ := DecM.bind_some h
+  obtain ⟨st2, s6, h2, h⟩ := DecM.bind_some h
+  have e1 := DecM.mapM'_map_eq (fun b : SeqAttState => b.desc.uniqueId) (fun d : AttDesc => d.uniqueId)
+    (by
+      intro d t b t' hb
+      obtain ⟨_, _, -, hb⟩ := DecM.bind_some hb
+      obtain ⟨_, _, -, hb⟩ := DecM.bind_some hb
+      dsimp only at hb
+      split at hb
+      · obtain ⟨_, _, -, hb⟩ := DecM.bind_some hb
+        split at hb
+        · obtain ⟨_, _, -, hb⟩ := DecM.bind_some hb
+          obtain ⟨rfl, -⟩ := DecM.pure_some hb
+          rfl
+        · obtain ⟨rfl, -⟩ := DecM.pure_some hb
+          rfl
+      · split at hb
+        · obtain ⟨_, _, -, hb⟩ := DecM.bind_some hb
+          obtain ⟨rfl, -⟩ := DecM.pure_some hb
+          rfl
+        · obtain ⟨rfl, -⟩ := DecM.pure_some hb
+          rfl) _ _ _ _ h1
+  have e2 := DecM.mapM'_map_eq (fun b : SeqAttState => b.desc.uniqueId) (fun d : SeqAttState => d.desc.uniqueId)
+    (by
+      intro d t b t' hb
+      obtain ⟨_, _, -, hb⟩ := DecM.bind_some hb
+      split at hb
+      · obtain ⟨_, _, -, hb⟩ := DecM.bind_some hb
+        obtain ⟨rfl, -⟩ := DecM.pure_some hb
+        rfl
+      · obtain ⟨_, _, -, hb⟩ := DecM.bind_some hb
+        obtain ⟨_, _, -, hb⟩ := DecM.bind_some hb
+        obtain ⟨_, _, -, hb⟩ := DecM.bind_some hb
+        obtain ⟨_, _, -, hb⟩ := DecM.bind_some hb
+        obtain ⟨rfl, -⟩ := DecM.pure_some hb
+        rfl) _ _ _ _ h2
+  have e4 := DecM.mapM'_map_eq
+    (fun a : Attribute => (a.uniqueId, a.map, a.numValues))
+    (fun d : SeqAttState => (d.desc.uniqueId, (none : Option (List Nat)), numPoints))
+    (fun d t a t' ha => finishSeqAttribute_spec opts d numPoints none t t' a ha) _ _ _ _ h
+  refine ⟨descs, s1, hd, ?_, ?_⟩
+  · have := congrArg (List.map Prod.fst) e4
+    simp only [List.map_map] at this
+    rw [show (fun a : Attribute => a.uniqueId) = Prod.fst ∘ (fun a : Attribute => (a.uniqueId, a.map, a.numValues)) from rfl, this]
+    rw [← e1, ← e2]
+    rfl
+  · intro a ha
+    have hm : (a.uniqueId, a.map, a.numValues) ∈ st2.map (fun d : SeqAttState => (d.desc.uniqueId, (none : Option (List Nat)), numPoints)) := by
+      rw [← e4]; exact List.mem_map_of_mem ha
+    obtain ⟨d, -, hd⟩ := List.mem_map.mp hm
+    simp only [Prod.mk.injEq] at hd
+    exact ⟨hd.2.1.symm, hd.2.2.symm⟩
+
+/-- the version-dispatching controller: the shape does not depend on the bitstream version -/
+theorem decodeSequentialAttributesV_shape (opts : DecOpts) (numPoints : Nat) (s s' : DSt)
+    (atts : List Attribute)
+    (h : decodeSequentialAttributesV opts numPoints s = (some atts, s')) :
+    ∃ descs s1, decodeAttDescs s = (some descs, s1) ∧
+      atts.map (·.uniqueId) = descs.map (·.uniqueId) ∧
+      ∀ a ∈ atts, a.map = none ∧ a.numValues = numPoints := by
+  unfold decodeSequentialAttributesV at h
+  obtain ⟨ver, s1, hv, h2⟩ := DecM.bind_some h
+  have hs : s1 = s := by
+    have : DecM.version s = (some s.version, s) := rfl
+    rw [this] at hv; exact (Prod.mk.inj hv).2.symm
+  rw [hs] at h2
+  split at h2
+  · exact decodeSequentialAttributesLegacy_shape opts numPoints s s' atts h2
+  · exact decodeSequentialAttributes_shape opts numPoints s s' atts h2
+
 theorem DecM.failWith_ne_some {α} (st : Status) (s : DSt) (b : α) (s' : DSt) :
     (DecM.failWith st : DecM α) s ≠ (some b, s') := by
   unfold DecM.failWith; intro h; cases h
@@ -609,7 +727,7 @@ theorem decodePointAttributesSeq_shape (opts : DecOpts) (numPoints : Nat) (s s' 
   · obtain ⟨rfl, -⟩ := DecM.pure_some h
     intro a ha; cases ha
   · split at h
-    · obtain ⟨_, _, -, -, q⟩ := decodeSequentialAttributes_shape _ _ _ _ _ h
+    · obtain ⟨_, _, -, -, q⟩ := decodeSequentialAttributesV_shape _ _ _ _ _ h
       exact q
     · exact absurd h (DecM.failWith_ne_some _ _ _ _)
 
@@ -982,5 +1100,14 @@ theorem Anim.setTimestamps_in_run {A0 : Anim} (h0 : A0.UidIdx) (calls : List Ani
       intro h; exact hts (List.length_eq_zero_iff.mp h)
     refine ⟨hext.head _ (by rw [eatts]; rfl) hsz, ?_⟩
     rw [hext.frames hCne, enf]
+
+/-- on a stream of bitstream version ≥ 2.0 the dispatching controller is the ≥ 2.0 controller -/
+theorem decodeSequentialAttributesV_eq_current (opts : DecOpts) (numPoints : Nat) (s : DSt)
+    (hver : bsVersion 2 0 ≤ s.version) :
+    decodeSequentialAttributesV opts numPoints s = decodeSequentialAttributes opts numPoints s := by
+  unfold decodeSequentialAttributesV
+  refine (DecM.bind_eq (m := DecM.version) (a := s.version) (s1 := s) rfl).trans ?_
+  have : ¬ s.version < bsVersion 2 0 := by omega
+  simp only [this, if_false]
 
 end Draco
